@@ -74,6 +74,16 @@ def opC01Reader : List String → Res
     | _, _ => bad
   | _ => bad
 
+/-- tie G: the client's `Write` as translated from the working tree on this run, fed the frames piece by piece: what it prints -/
+def c01client (pieces : List Bytes) : Option Bytes :=
+  let ext : Go.Ext := { parseFloat := fun _ => (0, none) }
+  let r := pieces.foldl (fun (acc : Option Gen.Client.baseHandler) piece => match acc with
+    | none => none
+    | some h => match Gen.Client.baseHandler.Write ext h piece with
+      | .ok (h', _, _) => some h'
+      | _ => none) (some {})
+  r.map fun h => h.printed.flatten
+
 def opC01Pipe : List String → Res
   | [plain, m, bufLen, _chunk, c] => match m.toNat?, bufLen.toNat?, unhex c with
     | some m, some bufLen, some bs =>
@@ -83,7 +93,8 @@ def opC01Pipe : List String → Res
       let pieces := frames.flatMap (fun f => readPieces bufLen f.length f)
       let out := printed (clientMsgsF frames.flatten)
       -- in plain mode what the client prints is the property's observable: the content (a final newline added)
-      { m := joinWith "," (pieces.map hexOf) ++ ";" ++ hexOf out,
+      { m := if c01client pieces != some out then "TRANSLATED-CLIENT-DIFFERS-FROM-MODEL" else
+          joinWith "," (pieces.map hexOf) ++ ";" ++ hexOf out,
         s := if plain then hexOf (insertNL m 0 bs) else "-",
         g := if plain then c01sig m bs else "-", t := c01tags m bs }
     | _, _, _ => bad
